@@ -57,6 +57,16 @@ type opKind struct {
 
 func pick[T any](xs []T, i int) T { return xs[((i%len(xs))+len(xs))%len(xs)] }
 
+// own renders a byte slice that an operation handed out and then
+// overwrites it: the bytes are the caller's, nobody else may be looking.
+func own(b []byte) string {
+	s := hx(b)
+	for i := range b {
+		b[i] ^= 0xff
+	}
+	return s
+}
+
 func b2s(b bool) string {
 	if b {
 		return "1"
@@ -180,9 +190,9 @@ func init() {
 			a, b := pick(fx.points, o.A), pick(fx.points, o.B)
 			switch o.C % 6 {
 			case 0:
-				return hx(P().Add(a, b).UncompressedBytes())
+				return own(P().Add(a, b).UncompressedBytes())
 			case 1:
-				return hx(P().Subtract(a, b).UncompressedBytes())
+				return own(P().Subtract(a, b).UncompressedBytes())
 			case 2:
 				return hx(P().Double(a).UncompressedBytes())
 			case 3:
@@ -200,7 +210,7 @@ func init() {
 		{name: "Point encoders", cost: 1116, warm: true, run: func(fx *Fixture, o *Op, c *ctx) string {
 			a := pick(fx.points, o.A)
 			x, err := a.XBytes()
-			return fmt.Sprintf("%x/%x/%x/%s", a.UncompressedBytes(), a.CompressedBytes(), x, errStr(err))
+			return fmt.Sprintf("%s/%s/%s/%s", own(a.UncompressedBytes()), own(a.CompressedBytes()), own(x), errStr(err))
 		}},
 		{name: "NewPointFrom/NewScalarFrom", cost: 409, warm: true, run: func(fx *Fixture, o *Op, c *ctx) string {
 			return fmt.Sprintf("%x/%x", secp256k1.NewPointFrom(pick(fx.points, o.A)).CompressedBytes(), secp256k1.NewScalarFrom(pick(fx.scalars, o.B)).Bytes())
@@ -208,17 +218,17 @@ func init() {
 		// ---------------- key encoders and accessors
 		{name: "PublicKey encoders", cost: 505, warm: true, run: func(fx *Fixture, o *Op, c *ctx) string {
 			k := pick(fx.pubs, o.A)
-			return fmt.Sprintf("%x/%x/%x/%x/%v", k.Bytes(), k.CompressedBytes(), k.ASN1Bytes(), k.Point().CompressedBytes(), k.Equal(pick(fx.pubs, o.B)))
+			return fmt.Sprintf("%s/%s/%s/%s/%v", own(k.Bytes()), own(k.CompressedBytes()), own(k.ASN1Bytes()), own(k.Point().CompressedBytes()), k.Equal(pick(fx.pubs, o.B)))
 		}},
 		{name: "PrivateKey accessors", cost: 54, warm: true, run: func(fx *Fixture, o *Op, c *ctx) string {
 			k := pick(fx.privs, o.A)
 			pub, _ := k.Public().(*secec.PublicKey)
-			return fmt.Sprintf("%x/%x/%x/%x/%v", k.Bytes(), k.Scalar().Bytes(), k.PublicKey().Bytes(), pub.CompressedBytes(), k.Equal(pick(fx.privs, o.B)))
+			return fmt.Sprintf("%s/%s/%s/%s/%v", own(k.Bytes()), own(k.Scalar().Bytes()), own(k.PublicKey().Bytes()), own(pub.CompressedBytes()), k.Equal(pick(fx.privs, o.B)))
 		}},
 		{name: "Schnorr key accessors", cost: 530, warm: true, run: func(fx *Fixture, o *Op, c *ctx) string {
 			k := pick(fx.sprivs, o.A)
 			p := pick(fx.spubs, o.B)
-			return fmt.Sprintf("%x/%x/%x/%x/%x/%v/%v", k.Bytes(), k.Scalar().Bytes(), k.PublicKey().Bytes(), p.Bytes(), p.Point().CompressedBytes(), k.Equal(pick(fx.sprivs, o.B)), p.Equal(pick(fx.spubs, o.A)))
+			return fmt.Sprintf("%s/%s/%s/%s/%s/%v/%v", own(k.Bytes()), own(k.Scalar().Bytes()), own(k.PublicKey().Bytes()), own(p.Bytes()), own(p.Point().CompressedBytes()), k.Equal(pick(fx.sprivs, o.B)), p.Equal(pick(fx.spubs, o.A)))
 		}},
 		// ---------------- derivations that read a shared key / point / scalar
 		{name: "NewSchnorrPrivateKeyFromECDSA", cost: 85, warm: true, run: func(fx *Fixture, o *Op, c *ctx) string {
@@ -369,6 +379,13 @@ func init() {
 			}
 			return hx(P().MultiScalarMult(ss, ps).CompressedBytes())
 		}},
+		// ---------------- a batch whose slices are themselves shared by the callers
+		{name: "MultiScalarMult(shared slices)", cost: 60000, warm: true, run: func(fx *Fixture, o *Op, c *ctx) string {
+			if o.C%2 == 0 {
+				return own(P().MultiScalarMultVartime(fx.msmScalars, fx.msmPoints).CompressedBytes())
+			}
+			return own(P().MultiScalarMult(fx.msmScalars, fx.msmPoints).CompressedBytes())
+		}},
 		// ---------------- failing entropy source in the middle of concurrent use
 		{name: "Sign(failing device)", cost: 57, warm: true, run: func(fx *Fixture, o *Op, c *ctx) string {
 			sig, err := pick(fx.privs, o.A).Sign(c.failing(o.Seed), pick(fx.digests, o.B), fx.opts)
@@ -415,8 +432,11 @@ func init() {
 			if err != nil {
 				return "err"
 			}
+			// the signature is the last thing this caller does with the key
+			// object (load, sign, drop)
+			pkb := own(k.PublicKey().Bytes())
 			sig, err := k.Sign(c.device(o.Seed, false), pick(fx.msgs, o.B), nil)
-			return fmt.Sprintf("%x/%x/%s", k.PublicKey().Bytes(), sig, errStr(err))
+			return fmt.Sprintf("%s/%x/%s", pkb, sig, errStr(err))
 		}},
 		{name: "cold:NewPointFromBytes+ScalarMult", cost: 18867, cold: true, warm: true, run: func(fx *Fixture, o *Op, c *ctx) string {
 			p, err := secp256k1.NewPointFromBytes(pick(fx.pubEncs, o.A))
